@@ -79,8 +79,8 @@ func main() {
 
 func body(w *run.Worker) {
 	trieExhaustive(w)
-	w.Cases("trie", w.N(8000, 400000), trieCase(w))
-	w.Cases("demux", w.N(24000, 1600000), demuxCase(w))
+	w.Cases("trie", w.N(8000, 250000), trieCase(w))
+	w.Cases("demux", w.N(24000, 1000000), demuxCase(w))
 	hierExhaustive(w)
-	w.Cases("hier", w.N(14000, 1000000), hierCase(w))
+	w.Cases("hier", w.N(14000, 600000), hierCase(w))
 }
